@@ -304,8 +304,11 @@ Definition is_global_branch (all_local : bool) (c : chan) : bool :=
 Definition slot_start (c : chan) (mt : list Z) (mend : Z) (s : xslot) (t : Z) : Z :=
   if (c_basis c =? 2) && memz t mt then Z.max (xs_ti s) mend else xs_ti s.
 
-(** the body of the loop over channels; [None] = IndexError ([cs.slots[0]] on
-    a channel without pulses) *)
+(** the body of the loop over channels.  The result type is kept optional
+    ([None] = an exception): before /repo commit 568e94cf the global branch
+    raised IndexError on [cs.slots[0]] for a channel without pulses; the code
+    now reads [if start_t == 0 or not cs.slots: continue], and
+    [Proofs/SamplerNested.nested_total] shows that [None] is never produced. *)
 Definition chan_step (all_local : bool) (N : Z) (mt : list Z) (mend : Z)
            (d : ndict) (ccs : chan * csamples) : option ndict :=
   let (c, cs) := ccs in
@@ -315,7 +318,7 @@ Definition chan_step (all_local : bool) (N : Z) (mt : list Z) (mend : Z)
     let d1 := upd N d (KG b) (qacc_plain (Z.to_nat start) (Z.to_nat N) cs) in
     if start =? 0 then Some d1
     else match cs_slots cs with
-         | [] => None
+         | [] => Some d1
          | s0 :: _ =>
              Some (fold_left
                      (fun d t => upd N d (KL b t) (qacc_plain O (Z.to_nat start) cs))
